@@ -28,7 +28,7 @@ RULE = ('sinex_synth writes SINEX 2.02 solutions from a model (1..12 stations, 1
         'configurations; every edit is executed under two of them, all 108 must be hit (otherwise INCONCLUSIVE) and the two '
         'outputs must agree outside the creation-time stamp.  non-trivial = a generated well-formed file with >= 1 remaining '
         'station; distinct = (function, stations, velocities, layout, exponent case, removal-size class, seconds-digit class '
-        'of the clock) buckets')
+        'of the clock) buckets Removal lists also name a station more than once or name an absent station; a share of the files carries its covariance scaled by 1e-9..1e-18 or 1e6.')
 ASSUMPTIONS = ['pandas is absent: an empty stub module satisfies the unused top-level import of geodepy/gnss.py (core.load_repo)',
                'sinex_synth writer/parser follow the SINEX 2.02 column tables and are self-validated each shard (hand-typed '
                'reference lines, writer->parser round trip, sub-matrix model against numpy.delete)',
